@@ -195,7 +195,20 @@ def validate_traces(ctx, traces, cfg="Trace_API.cfg"):
 
 
 def tlc_mc(ctx, module, cfg, workers=None, extra=None, timeout=3600, expect_violation=None, simulate=None):
-    """E1: exhaustive (or simulated) model checking of one module. Returns result dict."""
+    """E1: exhaustive (or simulated) model checking of one module. Returns result dict.
+    A TLC process that dies without a result (killed under memory pressure when several checks run at once)
+    is started once more before the run counts as a machinery fault."""
+    try:
+        return _tlc_mc(ctx, module, cfg, workers, extra, timeout, expect_violation)
+    except Fault as ex:
+        if not str(ex).startswith("TLC failed on"):
+            raise
+        ctx.notes.append("TLC died on %s/%s and was started again" % (module, cfg))
+        time.sleep(20)
+        return _tlc_mc(ctx, module, cfg, workers, extra, timeout, expect_violation)
+
+
+def _tlc_mc(ctx, module, cfg, workers, extra, timeout, expect_violation):
     args = [TLCRUN, "mc", ctx.specdir, module + ".tla", cfg, "-workers", str(workers or NCPU)]
     if extra:
         args += extra
